@@ -1415,8 +1415,9 @@ fn oracle_c10(plan: &ResolvePlan, obs: &Observations) -> RunResult {
             // authoritative zone* (open finding S9 under C01) shows here as that
             // owner appearing twice: once from the zone, once forged
             let forged_local_alias = rrs.iter().any(|rr| {
+                let owner = rr.name.to_dotted_string().to_ascii_lowercase();
                 matches!(rr.rtype_with_data, RecordTypeWithData::CNAME { .. })
-                    && rr.name.to_dotted_string().to_ascii_lowercase().ends_with(AUTH_APEX)
+                    && (owner.ends_with(AUTH_APEX) || owner.ends_with("over.test."))
                     && !plan.local.iter().any(|z| {
                         z.records.iter().any(|l| {
                             universe::names_equal(&l.owner, &rr.name.to_dotted_string())
